@@ -8,6 +8,8 @@ if [ -n "$(git status --porcelain --untracked-files=no)" ]; then echo "/repo is 
 git apply "$patch" || { echo "patch does not apply"; exit 2; }
 trap 'cd /repo && git checkout -- . ' EXIT INT TERM
 cd /verif
+# evidence of a run on a deliberately changed tree must never land in the committed evidence/ directory
+VERIF_EVIDENCE_DIR=/verif/work/scratch/evidence_seed; export VERIF_EVIDENCE_DIR
 for p in "$@"; do
   ./check "$p" > "work/scratch/seed_$p.out" 2>&1; rc=$?
   echo "== check $p: exit $rc"; grep "^VIOLATION\|^OK\|^UNDECIDED\|^KNOWN" "work/scratch/seed_$p.out"
